@@ -10,7 +10,7 @@ import GmqttVerif.Proofs.BrokerReplay
   `PumpRound`/`PumpTrace`/`Round` = the rounds of the poll loop (`Proofs/BrokerPump.lean`); `pumpIds c` = the ids
   offered to `Read`; `replayPkt` = the packet `pollInflights` writes for an element; `Pkt.core` forgets what
   topic-alias compression changes (topic name, alias, size); `pOuts conn ps` = the packets `ps` on the P stream of
-  `conn`. Invariants and helper lemmas: `Proofs/BrokerQueue|BrokerInv|BrokerReplay.lean`.
+  `conn`; `newP b0 b conn` = the P-stream packets written to `conn` since `b0`. Invariants and helper lemmas: `Proofs/BrokerQueue|BrokerInv|BrokerReplay.lean`.
 -/
 namespace GmqttVerif.Broker
 open GmqttVerif.Deliver
@@ -110,10 +110,6 @@ theorem pump_round_writes (b : B) (conn : String) (c : Cli) (s : Sess) (q' : Que
     ∃ ps, (b.pumpRound conn c s q' out).out = b.out ++ pOuts conn ps ∧
       ps.map Pkt.core = out.map (fun e => (b.pubPkt c e (b.ats.getD e.tag b.now)).core) :=
   pumpRound_out b conn c s q' out
-
-/-- the P-stream and H-stream packets written to `conn` since `b0` -/
-def newP (b0 b : B) (conn : String) : List Pkt :=
-  ((b.out.drop b0.out.length).filter (fun o => o.conn == conn && o.poll)).map (·.pkt)
 
 /-- 3. `replay_on_resume`. A CONNECT that resumes the stored session `s0` (Clean Start 0, deadline not passed;
     `b1` = the state after a connection with the same client id has been displaced) writes, after the displacement
